@@ -1926,6 +1926,47 @@ async fn value_sweep_case(init: &StateItem, work: &Path) -> Value {
                 Err(e) => fails.push(json!({"sig": format!("value_sweep:reload_read_failed:{}:{}", label.split('/').next().unwrap_or(""), b.name()), "what": format!("after a fresh sign-in a secret cannot be read: {}", e), "detail": {"case": label}})),
             }
         }
+        // large folder: more than 2 MiB of rows in one folder, then the
+        // folder header is rewritten (rename, description); everything must
+        // still be listed and readable, live and after a fresh sign-in
+        let mut large: Vec<(SecretId, Value)> = vec![];
+        for i in 0..3 {
+            let (meta, secret) = gen::secret("note", 3, &format!("large-{}", i));
+            let view = gen::secret_view(&secret);
+            let id = d2.account.create_secret(meta, secret, opts()).await?.id;
+            large.push((id, view));
+        }
+        d2.account.rename_folder(&fid, "renamed large folder".to_string()).await?;
+        d2.account.set_folder_description(&fid, "description of a large folder").await?;
+        for stage in ["live", "reload"] {
+            if stage == "reload" {
+                d2.close().await;
+                d2 = Dev::open(work, b, account_id, pw(0)).await.map_err(|e| anyhow!("reload of the large folder: {}", e))?;
+            }
+            let listed: HashSet<SecretId> = match d2.account.list_secret_ids(&fid).await {
+                Ok(v) => v.into_iter().collect(),
+                Err(e) => {
+                    fails.push(json!({"sig": format!("large_folder:{}_listing_failed:{}", stage, b.name()), "what": format!("a folder holding more than 2 MiB cannot be listed after its header was rewritten: {}", e), "detail": {}}));
+                    continue;
+                }
+            };
+            for (id, view) in &large {
+                if !listed.contains(id) {
+                    fails.push(json!({"sig": format!("large_folder:{}_listing_lacks_secret:{}", stage, b.name()), "what": "a secret of a large folder is not listed after the folder header was rewritten", "detail": {}}));
+                    continue;
+                }
+                match d2.account.read_secret(id, Some(&fid)).await {
+                    Ok((row, _)) if gen::secret_view(row.secret()) == *view => {}
+                    Ok(_) => fails.push(json!({"sig": format!("large_folder:{}_read_differs:{}", stage, b.name()), "what": "a large secret reads back differently after the folder header was rewritten", "detail": {}})),
+                    Err(e) => fails.push(json!({"sig": format!("large_folder:{}_read_failed:{}", stage, b.name()), "what": format!("a large secret cannot be read after the folder header was rewritten: {}", e), "detail": {}})),
+                }
+            }
+            for (id, _, _) in want.iter().take(5) {
+                if !listed.contains(id) {
+                    fails.push(json!({"sig": format!("large_folder:{}_listing_lacks_secret:{}", stage, b.name()), "what": "a secret of a large folder is not listed after the folder header was rewritten", "detail": {}}));
+                }
+            }
+        }
         d2.close().await;
         Ok(())
     }
